@@ -1,16 +1,19 @@
 #!/bin/bash
 # try_seed.sh <seeded dir name e.g. C19-m1> <property ids...>
-# Runs the quick checks of the given properties against a scratch copy of /repo with the seeded change applied.
-# /repo itself is not touched; evidence and replays go to a scratch directory.
+# Runs the checks of the given properties against a scratch worktree of /repo (current HEAD, i.e. with hooks and
+# fixes) with the seeded change applied (3-way, the patches were made against the pinned commit).
+# /repo's working tree is not touched; evidence and replays go to a scratch directory.
 set -u
 S=$1; shift
 W=$(mktemp -d /tmp/seedrun-XXXX)
-cp -r /repo "$W/repo" && rm -rf "$W/repo/.git"
-( cd "$W/repo" && patch -p1 -s < /verif/seeded/$S/patch.diff ) || { echo "$S: patch failed"; rm -rf "$W"; exit 2; }
+git -C /repo worktree add -f --detach "$W/repo" HEAD >/dev/null 2>&1 || { echo "$S: worktree failed"; exit 2; }
+( cd "$W/repo" && git apply --3way /verif/seeded/$S/patch.diff >/dev/null 2>&1 ) || { echo "$S: patch failed"; git -C /repo worktree remove --force "$W/repo"; rm -rf "$W"; exit 2; }
+if grep -q '^<<<<<<<' -r "$W/repo" --include=*.go 2>/dev/null; then echo "$S: patch conflicts"; git -C /repo worktree remove --force "$W/repo"; rm -rf "$W"; exit 2; fi
 for P in "$@"; do
-  out=$(cd /verif && VERIF_REPO="$W/repo" VERIF_EVIDENCE_DIR="$W/ev" VERIF_REPLAY_DIR="$W/rp" ./check $P --tier ${TIER:-quick} 2>&1)
+  out=$(cd /verif && VERIF_REPO="$W/repo" VERIF_EVIDENCE_DIR="$W/ev" VERIF_REPLAY_DIR="$W/rp" timeout ${TRY_TIMEOUT:-900} ./check $P --tier ${TIER:-quick} 2>&1)
   rc=$?
   nv=$(echo "$out" | grep -c '^VIOLATION')
   echo "$S $P rc=$rc violations=$nv :: $(echo "$out" | grep -m1 DIVERGENCE | cut -c1-260)"
 done
+git -C /repo worktree remove --force "$W/repo" >/dev/null 2>&1; git -C /repo worktree prune
 rm -rf "$W"
